@@ -4,7 +4,7 @@ from propcfg.common import STD_TRUST
 CONFIG = {
     "props_modules": ["C16"],
     "level": "proof",
-    "tie": "state_actions/state_shifts/core_reduces/reduce_only and every cell equal Model/Table.lean; every dumped closed state equals the verified reference closure of its core; every state is in the verified reachable set; shift and goto targets equal the graph's edges",
+    "tie": "state_actions/state_shifts/core_reduces/reduce_only and every cell equal Model/Table.lean; every dumped closed state equals the verified reference closure of its core AND the map computed by the model of Itemset::close (Model/CloseImpl.lean) run on the dumped core in the dumped hash-map key order; every state is in the verified reachable set; shift and goto targets equal the graph's edges",
     "rule": "grammars: classics + conflict/precedence corpus (incl. %nonassoc-removed cells) + random grammars with precedence declarations; every state x every token and rule. non-trivial = automaton with at least 4 states; distinct = distinct request line",
     "nontrivial": lambda req, im: len(" ".join(im.get("I", [""])).split(" sa ")[0].split(" ")) > 4,
     "trusted_base": STD_TRUST,
@@ -15,7 +15,7 @@ CONFIG = {
 MANIFEST = {
     "category": "proof",
     "design_ref": "DESIGN.md §5 C16",
-    "technique": "Lean 4 theorems about the model of the derived table views + verified reference closure/reachability compared with the dumped state graph",
-    "text": "Theorems (Props/C16.lean): the state_actions bit of a cell is set iff its final action is not an error; state_shifts = the shift cells; core_reduces holds exactly one production per distinct (rule, length) among the row's reductions and nothing else; reduce_only iff no shift/accept and exactly one such pair; a shift's target is the edge on that token; on a certified automaton goto and shift targets equal the graph's edges; the reference LR(1) closure is the least closed superset of the kernel (closure_exact) and the reference reachable set is exact (reachable_exact); both reference computations always terminate with an answer (closure_total, reachable_total). Every dumped automaton is compared: views with the model, closed states with the reference closure of their core (equality of item sets AND lookahead sets, empty-lookahead items included), reachability of all states.",
-    "note": "Per-automaton validation against verified references; the grammar quantifier is sampled. The bit-level encode/decode round trip is C20.action_roundtrip. Trusted: Lean kernel, dump through the public API, orchestrator.",
+    "technique": "Lean 4 theorems about the model of the derived table views and about the model of the closure algorithm Itemset::close + verified reference closure/reachability compared with the dumped state graph",
+    "text": "Theorems (Props/C16.lean): the state_actions bit of a cell is set iff its final action is not an error; state_shifts = the shift cells; core_reduces holds exactly one production per distinct (rule, length) among the row's reductions and nothing else; reduce_only iff no shift/accept and exactly one such pair; a shift's target is the edge on that token; on a certified automaton goto and shift targets equal the graph's edges; the reference LR(1) closure is the least closed superset of the kernel (closure_exact) and the reference reachable set is exact (reachable_exact); both reference computations always terminate with an answer (closure_total, reachable_total). The algorithm itself: Model/CloseImpl.lean transcribes Itemset::close (work list = keys iterator then lowest set bit of zero_todos, lookahead = FIRST sets or-ed along the tail with the nullable flag and break, the inherited context read from the map, Itemset::add and Vob::or with their changed flags, every out-of-range index a panic); close_impl_exact: for every well-formed grammar, exact nullable/FIRST oracles, kernel with distinct keys and EVERY order in which the hash map may yield the kernel's keys, the loop ends normally within |order| + |fact universe| + 1 iterations (no panic) and the resulting map has distinct keys and denotes exactly the inductively defined LR(1) closure (same items, same lookahead set per item); close_impl_eq_reference: hence the same fact set as the reference close1; close_impl_order_irrelevant: two key orders give maps with the same items and lookaheads; close_impl_check_sound: the driver's comparison sameItems(model map, dumped closed state) holds iff the dumped state denotes exactly the closure. Every dumped automaton is compared: views with the model, closed states with the reference closure of their core AND with the model of Itemset::close run on the dumped core (equality of item sets AND lookahead sets, empty-lookahead items included; counted separately in driver_counts closure_reference_differs / closure_model_of_close_differs), reachability of all states.",
+    "note": "Per-automaton validation against verified references; the grammar quantifier is sampled. The closure algorithm is proved for all grammars, kernels and hash orders at model level; the tie model<->Rust of Itemset::close is the per-state comparison (nullable/FIRST oracles of the model are the verified reference analyses, which C17 compares with YaccFirsts). The bit-level encode/decode round trip is C20.action_roundtrip. Trusted: Lean kernel, dump through the public API, orchestrator.",
 }
